@@ -210,3 +210,16 @@ Example C10_shape_mutant_create_before_render :
                 (fun _ => ([], Some (EPanic (S "boom")))) body in
   length (fslog (fst r)) = 1%nat /\ snd r = Some (EPanic (S "boom")).
 Proof. vm_compute. repeat split; reflexivity. Qed.
+
+Print Assumptions C10_shape_table.
+Print Assumptions C10_shape_delegates.
+Print Assumptions C10_shape_sound.
+Print Assumptions C10_shape_at_most_one_write.
+Print Assumptions C10_shape_result_vs_log.
+Print Assumptions C10_shape_save_sound.
+Print Assumptions C10_refinement_file_render.
+Print Assumptions C10_refinement_statement_render_with_file.
+Print Assumptions C10_refinement_group_render_with_file.
+Print Assumptions C10_refinement_file_save.
+Print Assumptions C10_refinement_inhabited_file_render.
+Print Assumptions C10_refinement_inhabited_code.
